@@ -719,4 +719,61 @@ def mghNormalise (L : Layout) (vals : List (List Nat)) : List (List Nat) :=
     setRaw L v "Pxyz_c" [0, 0, 0]
   else vals
 
+/-! ### the public entry point `WrapStruct.check_fix(logger=None, error_level=None)` (wrapstruct.py 345-362)
+
+        battrun = BatteryRunner(self.__class__._get_checks())
+        self, reports = battrun.check_fix(self)          -- ALL checks run, ALL repairs applied in place
+        for report in reports:
+            report.log_raise(logger, error_level)        -- only then: log each report, raise at the first
+                                                         --   with problem_level and problem_level >= error_level
+    `Report.log_raise` (batteryrunners.py 258-271) logs first and then raises `report.error(problem_msg)`;
+    every `_chk_*` of the header classes builds its report with `HeaderDataError` (a report without an error
+    class has level 0 and never raises).  `error_level=None` means `imageglobals.error_level` (default 40,
+    settable through `imageglobals.ErrorLevel`), `logger=None` means `imageglobals.logger`.  The object is
+    repaired IN PLACE, so the caller that catches the exception holds the repaired header: the bytes are an
+    observable of the call also when it raises. -/
+
+/-- `problem_level and problem_level >= error_level` -/
+def Report.raisesAt (lvl : Int) (r : Report) : Bool := r.level != 0 && decide (lvl ≤ (r.level : Int))
+
+/-- the loop `for report in reports: report.log_raise(logger, error_level)`:
+    (reports handed to the logger, index of the report that raised) -/
+def logRaise (lvl : Int) : List Report → List Report × Option Nat
+  | [] => ([], none)
+  | r :: rs =>
+    if r.raisesAt lvl then ([r], some 0)
+    else (r :: (logRaise lvl rs).1, (logRaise lvl rs).2.map (· + 1))
+
+/-- `error_level=None` → `imageglobals.error_level` -/
+def effLevel (arg : Option Int) (glob : Int) : Int := arg.getD glob
+
+/-- what one call `hdr.check_fix(logger, error_level)` leaves behind -/
+structure PubResult where
+  bytes : List Byte          -- `hdr.binaryblock` after the call (also when it raised)
+  logged : List Report       -- what the logger received, in order
+  raised : Option Nat        -- battery index of the check whose report raised `HeaderDataError`
+  deriving DecidableEq, Repr, Inhabited
+
+def wrapCheckFix (c : ClsSpec) (L : Layout) (e : Endian) (bs : List Byte) (lvl : Int) : PubResult :=
+  let r := checkFixBytes c L e bs
+  let lr := logRaise lvl r.2
+  ⟨r.1, lr.1, lr.2⟩
+
+/-- a history of `check_fix` calls (each with its own effective error level) on the same object -/
+def runHistory (c : ClsSpec) (L : Layout) (e : Endian) : List Byte → List Int → List PubResult
+  | _, [] => []
+  | bs, l :: ls => wrapCheckFix c L e bs l :: runHistory c L e (wrapCheckFix c L e bs l).bytes ls
+
+/-- `Klass(binaryblock, endianness, check=True)` (wrapstruct.py 130-172; analyze.py 198, nifti1.py 847,
+    mghformat.py 104-127 delegate): `check_fix()` with the global levels; the object exists only when
+    nothing raised (`error i` = `HeaderDataError` from battery index `i`) -/
+def ctorChecked (c : ClsSpec) (L : Layout) (e : Endian) (bs : List Byte) (glob : Int) : Except Nat (List Byte) :=
+  match (wrapCheckFix c L e bs glob).raised with
+  | some i => .error i
+  | none => .ok (wrapCheckFix c L e bs glob).bytes
+
+/-- `WrapStruct.diagnose_binaryblock` (wrapstruct.py 364-370): the non-empty messages of `check_only` -/
+def diagnose (c : ClsSpec) (L : Layout) (e : Endian) (bs : List Byte) : List Report :=
+  (checkOnlyBytes c L e bs).filter (fun r => r.msg != .none)
+
 end Nb.C10
